@@ -4,11 +4,13 @@
 package packfile
 
 import (
+	"bytes"
 	"encoding/binary"
 	"encoding/hex"
 	"errors"
 	"fmt"
 	"io"
+	"math"
 	"math/bits"
 
 	"github.com/wrgl/wrgl/pkg/encoding"
@@ -174,19 +176,19 @@ func (r *PackfileReader) ReadObject() (objType int, b []byte, err error) {
 	if err != nil {
 		return
 	}
-	var read uint64 = 0
-	b = make([]byte, int(u))
-	for read < u {
-		n, err := r.r.Read(b[read:])
-		if err != nil && err != io.EOF {
-			return 0, nil, err
-		}
-		read += uint64(n)
-		if errors.Is(err, io.EOF) && read < u {
+	if u > math.MaxInt64 {
+		return 0, nil, fmt.Errorf("object size %d is too large", u)
+	}
+	// the size comes from the stream so the buffer only grows as data arrives
+	buf := bytes.NewBuffer(nil)
+	n, err := io.CopyN(buf, r.r, int64(u))
+	if err != nil {
+		if errors.Is(err, io.EOF) && uint64(n) < u {
 			return 0, nil, io.ErrUnexpectedEOF
 		}
+		return 0, nil, err
 	}
-	return
+	return objType, buf.Bytes(), nil
 }
 
 func (r *PackfileReader) Close() error {
